@@ -10,6 +10,7 @@ import BezierVerif.Model.Nodelist
 import BezierVerif.Model.Sample
 import BezierVerif.Model.Fit
 import BezierVerif.Model.Clip
+import BezierVerif.Model.Lookup
 import BezierVerif.Gen.Box
 
 namespace ModelDriver
@@ -334,6 +335,17 @@ def handle (name : String) (args : List String) : String :=
         | _, _ => "bad-args"
       | _, _ => "bad-args"
     | _ => "bad-args"
+  | "lookup.quad" =>
+    match parseSegs (args.take 7), (args.drop 7).mapM parseRat with
+    | some ([Seg.quad a b c], []), some [qx, qy] => "ok " ++ showRat (Lookup.quadTOfPoint ratSqrt a b c ⟨qx, qy⟩)
+    | _, _ => "bad-args"
+  | "lookup.cubic" =>
+    -- lookup.cubic C .. qx qy | samples
+    match parseSegs (args.take 9), ((args.drop 9).take 2).mapM parseRat, ((args.drop 11).drop 1).mapM parseRat with
+    | some ([s], []), some [qx, qy], some samples =>
+      let dist (t : ℚ) : ℚ := let p := s.eval t; ratSqrt ((p.x - qx) * (p.x - qx) + (p.y - qy) * (p.y - qy))
+      "ok " ++ showRat (Lookup.cubicTOfPoint dist samples)
+    | _, _, _ => "bad-args"
   | _ => "nomodel"
 
 end ModelDriver
